@@ -29,7 +29,7 @@ ASSUMPTIONS = [
 ]
 TRUSTED = ["dataclasses and importlib (stdlib)", "Python set iteration order as an uninterpreted permutation"]
 EXHAUSTIVE = {"quick": False, "thorough": False}
-THOROUGH_ROUNDS = 4   # thorough tier: this many generator passes with derived PRNG states (vcheck)
+THOROUGH_ROUNDS = 5   # thorough tier: this many generator passes with derived PRNG states (vcheck)
 
 FIELD_POOL = ["a", "b", "c", "x", "y", "z", "u", "w"]
 
@@ -304,7 +304,7 @@ def gen_history(rng, table):
 
 
 def gen(rng, tier):
-    n_tables = 200 if tier == "quick" else 4000
+    n_tables = 150 if tier == "quick" else 2000   # per generator pass (thorough: THOROUGH_ROUNDS passes)
     for _ in range(n_tables):
         table = gen_table(rng)
         yield {"op": "sub.resolve", "case": {"classes": shuffle_definition_order(rng, table)}}
@@ -546,6 +546,38 @@ def _outcome(fn):
     return {"o": "exit", "code": r.get("code")}, None
 
 
+def _reload_drops(c):
+    """every load of one serialized form must obey the property: with save_dc_types the SAME dict object is loaded again
+    with the two other values of drop_extra_fields, otherwise once more with the same value"""
+    if c["save"]:
+        return [v for v in (None, True, False) if v != c["drop"]]
+    return [c["drop"]]
+
+
+def _load_repeatedly(w, c, orig):
+    """to_dict once; snapshot; load the same dict object 2-3 times; after each load compare the dict with the snapshot"""
+    import copy
+
+    Base = w.cls[c["base"]]
+    d = orig.to_dict(save_dc_types=c["save"])
+    snap = w.canon_dict(copy.deepcopy(d))
+    out, val = _outcome(lambda: Base.from_dict(d, drop_extra_fields=c["drop"]))
+    obs = {"dict": snap, "out": out, "orig_ok": sp.cv(orig) == c["inst"], "dict_unchanged": w.canon_dict(d) == snap}
+    if not obs["dict_unchanged"]:
+        obs["dict_after"] = w.canon_dict(copy.deepcopy(d))
+    if val is not None:
+        obs["equal"] = bool(val == orig)
+        obs["same_type"] = type(val) is type(orig)
+    obs["reloads"] = []
+    for dr in _reload_drops(c):
+        o2, v2 = _outcome(lambda: Base.from_dict(d, drop_extra_fields=dr))
+        # (observations are kept small: a later load that gives what the first one gave is recorded as such)
+        obs["reloads"].append({"drop": dr, "out": "same-as-first" if o2 == out else o2,
+                               "dict_unchanged": w.canon_dict(d) == snap,
+                               "equal": bool(v2 == orig) if v2 is not None else None})
+    return obs
+
+
 def impl(case):
     import logging
 
@@ -560,18 +592,13 @@ def impl(case):
             return {"rows": rows}
         Base = w.cls[c["base"]]
         if op == "sub.load":
-            orig = w.build(c["inst"])
-            d = orig.to_dict(save_dc_types=c["save"])
-            out, val = _outcome(lambda: Base.from_dict(d, drop_extra_fields=c["drop"]))
-            obs = {"rows": rows, "pi": pi, "dict": w.canon_dict(d), "out": out, "orig_cv": sp.cv(orig)}
-            if val is not None:
-                obs["equal"] = bool(val == orig)
-                obs["same_type"] = type(val) is type(orig)
+            obs = _load_repeatedly(w, c, w.build(c["inst"]))
+            obs.update(pi={k: v for k, v in pi.items() if v})
             return obs
         if op == "sub.loaddict":
             d = w.raw(c["dict"])
             out, _ = _outcome(lambda: Base.from_dict(d, drop_extra_fields=c["drop"]))
-            return {"rows": rows, "pi": pi, "out": out}
+            return {"pi": {k: v for k, v in pi.items() if v}, "out": out}
         raise ValueError(op)
     finally:
         w.close()
@@ -599,14 +626,9 @@ def _impl_history(c):
                 warm.append(out["o"] if out["o"] != "raise" else "raise:" + str(out.get("exc")))
         w.define_rest()
         Base = w.cls[c["base"]]
-        orig = w.build(c["inst"])
-        d = orig.to_dict(save_dc_types=c["save"])
-        out, val = _outcome(lambda: Base.from_dict(d, drop_extra_fields=c["drop"]))
-        rows, pi = w.resolve_rows(c["classes"])   # observed AFTER the load under test
-        obs = {"rows": rows, "pi": pi, "dict": w.canon_dict(d), "out": out, "orig_cv": sp.cv(orig), "warm": warm}
-        if val is not None:
-            obs["equal"] = bool(val == orig)
-            obs["same_type"] = type(val) is type(orig)
+        obs = _load_repeatedly(w, c, w.build(c["inst"]))
+        rows, pi = w.resolve_rows(c["classes"])   # observed AFTER the loads under test
+        obs.update(rows=rows, pi=pi, warm=warm)
         return obs
     finally:
         w.close()
@@ -806,18 +828,39 @@ def _oracle(case, obs):
     out = obs["out"]
     if op in ("sub.load", "sub.history"):
         inst, save, drop = c["inst"], c["save"], c["drop"]
-        if obs["orig_cv"] != inst:
+        if not obs["orig_ok"]:
             fails.append({"clause": "harness", "detail": "the real instance differs from the case's instance tree"})
             return fails
-        mode = _mode(drop, eff_dis(classes, base))
-        if out["o"] != "ok":
-            fails.append({"clause": "raise", "detail": f"loading a {inst['cls']} through {base} raised {out.get('exc')}",
-                          "path": [], "orig": inst["cls"], "through": base, "mode": mode, "in_container": False,
-                          "exc": out.get("exc")})
-            return fails
-        check_node(classes, inst, out["v"], base, mode, save, False, [], obs["dict"], fails)
-        if not fails and out["v"] == inst and not obs.get("equal"):
-            fails.append({"clause": "equal", "detail": "same class and field values but the result is not == the original"})
+        # the property holds for EVERY load of the serialized form: the first one and each later load of the same dict object
+        loads = [{"drop": drop, "out": out, "equal": obs.get("equal"), "nth": 1}] + [
+            dict(r, nth=i + 2, out=out if r["out"] == "same-as-first" else r["out"])
+            for i, r in enumerate(obs.get("reloads", []))]
+        for ld in loads:
+            lf = []
+            mode = _mode(ld["drop"], eff_dis(classes, base))
+            o = ld["out"]
+            if o["o"] != "ok":
+                lf.append({"clause": "raise", "detail": f"loading a {inst['cls']} through {base} raised {o.get('exc')}",
+                           "path": [], "orig": inst["cls"], "through": base, "mode": mode, "in_container": False,
+                           "exc": o.get("exc")})
+            else:
+                check_node(classes, inst, o["v"], base, mode, save, False, [], obs["dict"], lf)
+                if not lf and o["v"] == inst and not ld.get("equal"):
+                    lf.append({"clause": "equal", "detail": "same class and field values but the result is not == the original"})
+            for f in lf:
+                if ld["nth"] > 1:
+                    f["detail"] = (f"load #{ld['nth']} of the same dict object (drop_extra_fields={ld['drop']}): " + f["detail"])
+                f["load"] = ld["nth"]
+                f["load_drop"] = ld["drop"]
+            fails += lf
+        if save:
+            # from_dict works on a copy: the serialized form (with its `_type_` keys at every level) is still there afterwards
+            unchanged = [obs.get("dict_unchanged", True)] + [r["dict_unchanged"] for r in obs.get("reloads", [])]
+            if not all(unchanged):
+                n = unchanged.index(False) + 1
+                fails.append({"clause": "dict-unchanged", "load": n,
+                              "detail": f"load #{n} changed the caller's dict: {str(obs.get('dict_after', ''))[:160]} "
+                                        f"instead of {str(obs['dict'])[:160]}"})
         return fails
     if op == "sub.loaddict":
         d = c["dict"]
